@@ -1051,8 +1051,70 @@ def judge(ctx, c):
         judge_nonprom(ctx, c)
     elif k == 'badstr':
         judge_badstr(ctx, c)
+    elif k == 'foreign-pickle':
+        judge_foreign_pickle(ctx, c)
     else:
         raise KeyError(k)
+
+
+# ---- objects that were pickled by ANOTHER interpreter (other hash salt) ------------------------------------------------
+_FOREIGN_CHILD = r'''
+import sys, json, pickle, base64
+import bitstring
+spec = json.loads(sys.stdin.read())
+out = []
+for cls, bits, used in spec:
+    o = getattr(bitstring, cls)(bin=bits) if bits else getattr(bitstring, cls)()
+    if used:
+        # the object was in use before it was saved: hashed, compared, read
+        if cls in ('Bits', 'ConstBitStream'):
+            {o: 1}[o]
+        o == o, len(o), (o.bin if bits else '')
+    out.append(base64.b64encode(pickle.dumps(o)).decode())
+print(json.dumps(out))
+'''
+
+
+def judge_foreign_pickle(ctx, c):
+    """Equal immutable bitstrings are interchangeable as dict keys and set members - also when one of them was saved by another
+    process (whose string hashing has another salt) and loaded here."""
+    import base64
+    import json as _json
+    import pickle
+    import subprocess
+    import sys
+    root = os.path.dirname(os.path.dirname(os.path.abspath(bitstring.__file__)))
+    childseed = c['childseed'] + (1 if os.environ.get('PYTHONHASHSEED') == str(c['childseed']) else 0)     # never this process's own salt
+    env = dict(os.environ, PYTHONPATH=root, PYTHONHASHSEED=str(childseed))
+    p = subprocess.run([sys.executable, '-c', _FOREIGN_CHILD], input=_json.dumps(c['items']), capture_output=True, text=True, timeout=120, env=env)
+    if p.returncode != 0:
+        ctx.mismatch('C13|foreign-pickle|child|could-not-pickle', c, p.stderr[-300:])
+        return
+    with util.options(lsb0=False):
+        for (cls, bits, used), blob in zip(c['items'], _json.loads(p.stdout)):
+            got = call(lambda: pickle.loads(base64.b64decode(blob)))
+            ctx.op('unpickle-foreign', 'ok' if got[0] == 'ok' else type(got[1]).__name__)
+            ic = f'{cls},{"used-before-saving" if used else "fresh"},{lclass(len(bits))}'
+            if got[0] != 'ok':
+                ctx.mismatch(f'C13|foreign-pickle|{ic}|unexpected-exc:{type(got[1]).__name__}', c, f'{got[1]!s:.100}')
+                continue
+            o = got[1]
+            fresh = CLASSES[cls](bin=bits) if bits else CLASSES[cls]()
+            if type(o) is not CLASSES[cls] or OB(o) != bits or not (o == fresh and fresh == o) or (o != fresh):
+                ctx.mismatch(f'C13|foreign-pickle|{ic}|not-equal-to-fresh', c, f'{OB(o)[:60]} vs {bits[:60]}')
+            elif cls in IMMUTABLE and (hash(o) != hash(fresh) or {fresh: 1}.get(o) != 1 or o not in {fresh}):
+                ctx.mismatch(f'C13|foreign-pickle|{ic}|equal-but-hash-differs', c, f'hash {hash(o)} vs {hash(fresh)} for {len(bits)} bits')
+            else:
+                ctx.ok(('foreign-pickle', cls, used, lbucket(len(bits))), True)
+
+
+def gen_foreign_pickle(ctx):
+    rng = ctx.rng
+    items = []
+    for _ in range(40):
+        L = rng.choice([0, 1, 7, 8, 24, 100, 2000, 2001, 4096])
+        items.append([rng.choice(util.CLASS_NAMES), util.content(rng, L), rng.random() < 0.7])
+    return {'kind': 'foreign-pickle', 'items': items, 'childseed': rng.choice([0, 1, 12345, 4242])}
 
 
 # ---- directed and enumerated sub-spaces ---------------------------------------------------------
@@ -1150,6 +1212,8 @@ def run(ctx):
         enumerate_nonprom(ctx)
         enumerate_badstr(ctx)
         enumerate_small_pairs(ctx)
+        for _ in range(1 if ctx.quick else 3):
+            ctx.run_case(judge, gen_foreign_pickle(ctx))
         n = ctx.scale(30000, 900000)
         for i in range(n):
             c = gen_objs_case(ctx) if ctx.rng.random() < 0.72 else gen_operand_case(ctx)
